@@ -140,6 +140,12 @@ def main():
         # annotated teal minus comments
         ann = sm.annotated_teal or ""
         stripped = []
+        try:
+            for line in ann.split("\n") + lines:
+                avm.tokenize_line(line)
+        except ValueError as ex:
+            out["problems"].append(f"seed {seed} v{version}: TEAL line does not lex: {ex}")
+            continue
         for line in ann.split("\n"):
             toks = avm.tokenize_line(line) if not line.lstrip().startswith("#pragma") else [[line.split("//")[0].strip()]]
             stripped.append(" ".join(" ".join(t) for t in toks))
